@@ -438,11 +438,12 @@ Definition c_touch (k : key) (q : list key) : list key :=
 
 (* Create (store.go:153 / memory/store.go:67).  data = None: the returned *File is kept as a
    handle (memory only); data = Some d: the driver writes d through it and closes it. *)
+Definition create_supported (bk : backing) (data : option (list N)) : bool :=
+  match bk, data with Disk, None => false | _, _ => true end.
+
 Definition c_create (bk : backing) (fx : bool) (c : cstate) (k : key) (size : N) (data : option (list N)) : cstate * out :=
   let kc := c_core c in
-  match bk, data with
-  | Disk, None => (c, OUnsupported)
-  | _, _ =>
+  if negb (create_supported bk data) then (c, OUnsupported) else
     match assoc k (k_blobs kc) with
     | Some _ => (c, OErr EExist)
     | None =>
@@ -451,13 +452,12 @@ Definition c_create (bk : backing) (fx : bool) (c : cstate) (k : key) (size : N)
         | (kc1, size1, q1, true) =>
             let size2 := add64 size1 size in              (* s.size += sizeBytes *)
             match data with
-            | None => let '(kc3, h) := add_handle (k_next kc1) (add_blob k size [] kc1) in
-                      (mkc kc3 size2 q1, OHandle h)
+            | None => let kh := add_handle (k_next kc1) (add_blob k size [] kc1) in
+                      (mkc (fst kh) size2 q1, OHandle (snd kh))
             | Some d => (mkc (add_blob k size d kc1) size2 q1, OOk)
             end
         end
-    end
-  end.
+    end.
 
 Definition cstep (bk : backing) (fx : bool) (c : cstate) (o : op) : cstate * out :=
   let kc := c_core c in
@@ -473,8 +473,8 @@ Definition cstep (bk : backing) (fx : bool) (c : cstate) (o : op) : cstate * out
       | Memory =>
         match lookup kc k sc with
         | inr e => (c, OErr e)
-        | inl b => let '(kc1, h) := add_handle (b_cell b) kc in
-                   (mkc kc1 (c_size c) (c_touch k (c_queue c)), OHandle h)
+        | inl b => let kh := add_handle (b_cell b) kc in
+                   (mkc (fst kh) (c_size c) (c_touch k (c_queue c)), OHandle (snd kh))
         end
       end
   | OpenRead k sc =>                                        (* store.go:99 / memory 123 *)
@@ -573,9 +573,7 @@ Definition touch (s : sstate) (k : key) : list (key * N) := (k, s_clock s) :: s_
 Definition s_create (bk : backing) (s : sstate) (k : key) (size : N) (data : option (list N)) : sstate * out :=
   let kc := s_core s in
   let tick kc' last' := mks kc' last' (N.succ (s_clock s)) in
-  match bk, data with
-  | Disk, None => (tick kc (s_last s), OUnsupported)
-  | _, _ =>
+  if negb (create_supported bk data) then (tick kc (s_last s), OUnsupported) else
     match assoc k (k_blobs kc) with
     | Some _ => (tick kc (s_last s), OErr EExist)
     | None =>
@@ -583,13 +581,12 @@ Definition s_create (bk : backing) (s : sstate) (k : key) (size : N) (data : opt
         | (kc1, false) => (tick kc1 (s_last s), OErr ENoSpace)
         | (kc1, true) =>
             match data with
-            | None => let '(kc3, h) := add_handle (k_next kc1) (add_blob k size [] kc1) in
-                      (tick kc3 (touch s k), OHandle h)
+            | None => let kh := add_handle (k_next kc1) (add_blob k size [] kc1) in
+                      (tick (fst kh) (touch s k), OHandle (snd kh))
             | Some d => (tick (add_blob k size d kc1) (touch s k), OOk)
             end
         end
-    end
-  end.
+    end.
 
 Definition sstep (bk : backing) (s : sstate) (o : op) : sstate * out :=
   let kc := s_core s in
@@ -606,8 +603,8 @@ Definition sstep (bk : backing) (s : sstate) (o : op) : sstate * out :=
       | Memory =>
         match lookup kc k sc with
         | inr e => (tick kc (s_last s), OErr e)
-        | inl b => let '(kc1, h) := add_handle (b_cell b) kc in
-                   (tick kc1 (touch s k), OHandle h)                 (* a use *)
+        | inl b => let kh := add_handle (b_cell b) kc in
+                   (tick (fst kh) (touch s k), OHandle (snd kh))       (* a use *)
         end
       end
   | OpenRead k sc =>
